@@ -51,5 +51,10 @@ if _m and not re.search(r"nni_aio_finish\(aio,\s*0,\s*len\)", _body):
     missing.append("nni_aio_finish(aio, 0, len) in bus0_sock_send of %s" % _p)
 if _m and not re.search(r"nni_pipe_id\(pipe->pipe\)\s*==\s*sender", _body):
     missing.append("the raw-mode skip test in bus0_sock_send of %s" % _p)
-extra_text.append("Definition BUS_SEND_NO_AIO_START : bool := %s.  (* bus.c bus0_sock_send: no nni_aio_start before the fan-out (the pinned tree has one: NONBLOCK sends fail) *)"
-                  % ("false" if _start else "true"))
+# ... or it still starts the aio (with a NULL cancel function, to honour a stopped aio) but nni_aio_start no longer
+# turns a zero timeout into an immediate failure for an operation that cannot wait (fix 6c6b12b)
+_aio = src("src/core/aio.c")
+_nullcancel_ok = bool(re.search(r"if\s*\(timeout\s*&&\s*\(cancel\s*!=\s*NULL\)\)\s*\{", _aio)) and \
+    bool(re.search(r"nni_aio_start\(\s*aio\s*,\s*NULL\s*,\s*NULL\s*\)", _body))
+extra_text.append("Definition BUS_SEND_NO_AIO_START : bool := %s.  (* a NONBLOCK BUS send is not refused: bus0_sock_send has no nni_aio_start before the fan-out, or starts with a NULL cancel function and nni_aio_start applies zero timeouts only to operations that can wait (the pinned tree: NONBLOCK sends fail) *)"
+                  % ("true" if (not _start or _nullcancel_ok) else "false"))
